@@ -1,5 +1,51 @@
-use serde_json::Value;
+use crate::ops::{b, s};
+use serde_json::{json, Value};
+use text_utils::edit;
 
-pub fn dispatch(op: &str, _req: &Value) -> Result<Value, String> {
-    Err(format!("unknown op {op}"))
+fn strs(req: &Value, k: &str) -> Result<Vec<String>, String> {
+    let arr = req.get(k).and_then(|v| v.as_array()).ok_or(format!("missing {k}"))?;
+    let mut out = vec![];
+    for a in arr {
+        let mut st = String::new();
+        for c in a.as_array().ok_or("bad string")? {
+            st.push(char::from_u32(c.as_u64().ok_or("bad cp")? as u32).ok_or("not scalar")?);
+        }
+        out.push(st);
+    }
+    Ok(out)
+}
+
+fn f(v: f64) -> Value {
+    // NaN / inf become null (serde_json cannot represent them)
+    json!(v)
+}
+
+pub fn dispatch(op: &str, req: &Value) -> Result<Value, String> {
+    match op {
+        "edit_distance" => Ok(f(edit::distance(&s(req, "a")?, &s(req, "b")?, b(req, "g")?, b(req, "swap")?,
+            b(req, "spaces")?, b(req, "norm")?))),
+        "edit_prefix_distance" => Ok(f(edit::prefix_distance(&s(req, "a")?, &s(req, "b")?, b(req, "g")?,
+            b(req, "swap")?, b(req, "spaces")?, b(req, "norm")?))),
+        "edit_operations" => {
+            let ops = edit::operations(&s(req, "a")?, &s(req, "b")?, b(req, "g")?, b(req, "swap")?, b(req, "spaces")?);
+            Ok(Value::Array(ops.iter().map(|(o, i, j)| {
+                let n = match o {
+                    edit::EditOperation::Insert => "Insert",
+                    edit::EditOperation::Delete => "Delete",
+                    edit::EditOperation::Replace => "Replace",
+                    edit::EditOperation::Swap => "Swap",
+                };
+                json!([n, i, j])
+            }).collect()))
+        }
+        "edit_distances" => {
+            let a = strs(req, "a")?;
+            let bb = strs(req, "b")?;
+            Ok(match edit::distances(&a, &bb, b(req, "g")?, b(req, "swap")?, b(req, "spaces")?, b(req, "norm")?) {
+                Ok(v) => json!({"Ok": v.into_iter().map(f).collect::<Vec<_>>()}),
+                Err(_) => json!({"Err": true}),
+            })
+        }
+        _ => crate::ops4::dispatch(op, req),
+    }
 }
